@@ -203,6 +203,8 @@ type Node struct {
 	Marked    bool              `json:"marked"`
 	Deleting  bool              `json:"deleting"`
 	CSI       []CSILimit        `json:"csi"`
+	// NoHost: the Node object lacks the kubernetes.io/hostname label (C18: the kubelet has not set it yet / it was removed)
+	NoHost bool `json:"noHost,omitempty"`
 }
 
 // DS is a daemonset (pod template).
@@ -275,6 +277,19 @@ type Scenario struct {
 	Pods     []Pod               `json:"pods"`
 	Nss      []NS                `json:"nss"` // C02: namespaces with labels (completed by the driver: every namespace a pod lives in)
 	DRA      *DRA                `json:"dra,omitempty"` // dynamic resource allocation (dra.go); absent = IgnoreDRARequests
+	// Overlays (C18, x_frame.go): non-empty = NodeOverlay feature gate on, every component behind the overlay decorator, the
+	// NodeOverlay objects appear (and the real nodeoverlay controller evaluates them) right before the provisioning pass
+	Overlays []Overlay `json:"overlays,omitempty"`
+}
+
+// Overlay: a NodeOverlay. Reqs use short keys; Capacity: extended resource name -> quantity; Price / PriceAdjustment as in the API.
+type Overlay struct {
+	Name            string            `json:"name"`
+	Weight          int               `json:"weight,omitempty"`
+	Reqs            []Expr            `json:"reqs"`
+	Price           string            `json:"price,omitempty"`
+	PriceAdjustment string            `json:"priceAdjustment,omitempty"`
+	Capacity        map[string]string `json:"capacity,omitempty"`
 }
 
 const NoInt = -1000
@@ -388,6 +403,9 @@ func (s *Scenario) Normalise() {
 	}
 	if s.Types == nil {
 		s.Types = []Type{}
+	}
+	for i := range s.Overlays {
+		s.Overlays[i].Reqs = nzE(s.Overlays[i].Reqs)
 	}
 	for i := range s.Types {
 		t := &s.Types[i]
